@@ -188,6 +188,7 @@ func runC11(c *kit.Ctx) {
 	for _, f := range surface {
 		c.Funcs[kit.FuncName(f)] = true
 	}
+	c.Scratch["surface"] = surface
 	eng := bounds.New(p)
 	c.Assumption("int is 64 bits wide; no received buffer is longer than 4 GiB-1 (the frame length prefix is a uint32)")
 	c.Assumption("proto.Unmarshal enforces proto2 'required' fields; messages on the decode surface are produced by proto.Unmarshal")
